@@ -11,6 +11,9 @@
                   ids are dense: id = len before the push, len += 1 after
   no-ref-escape   FrozenCopyMap hands out copies only (no method returns a reference into the rehashing map)
   guarded-index   Index/IndexMut of Arena assert index < len before the unchecked access
+
+Added after the second and third seeding rounds:
+  store-agreement   every storage field FrozenCopyMap::insert_copy can write is consulted on every path through get_copy
 """
 from common import *
 import q
